@@ -365,6 +365,15 @@ def main():
         else:
             harness_problem.append("class %s (run %d): confirmation failed" % (cls, idx))
 
+    # ---- the emulated process boundary against real processes (C11, C13) ---------
+    fidelity = None
+    if engine in ("sim_io", "sim_restart"):
+        fr = subprocess.run([sys.executable, "tools/fidelity.py", "24" if tier == "quick" else "240", str(seed)], stdout=subprocess.PIPE, stderr=subprocess.PIPE, text=True)
+        try: fidelity = json.loads(fr.stdout.strip().splitlines()[-1])
+        except Exception: fidelity = dict(cases=0, mismatches=-1, details=[fr.stdout[-300:] + fr.stderr[-300:]])
+        if fidelity.get("mismatches", -1) != 0:
+            harness_problem.append("emulated gama-local differs from the real process: %s" % json.dumps(fidelity)[:600])
+
     # ---- evidence -------------------------------------------------------------
     evals = len(results)
     nontriv_hashes = set(r[0] for r in results.values() if r[4])
@@ -412,6 +421,7 @@ def main():
         known_findings_matched=known_hits,
         ubsan_non_gating_reports=ubsan_counts,
         components=REAL_STUB,
+        process_emulation_fidelity=fidelity if fidelity is not None else "not applicable: this engine calls library code directly",
         workers=args.workers,
         build_s=round(build_s, 1),
     )
